@@ -297,7 +297,9 @@ func (g *valGen) fill(v reflect.Value, p rparams, depth int) {
 	case reflect.Int32:
 		v.SetInt(g.int64("int32", 32))
 	case reflect.String:
-		ascii := t == ia5Type || t == graphicType || p.str == 22 || p.str == 25
+		// IA5String / GraphicString members mostly get 7-bit contents; the codec marshals any octets in them, so
+		// (C05: "every value the codec can marshal") octets above 0x7f are drawn as well
+		ascii := (t == ia5Type || t == graphicType || p.str == 22 || p.str == 25) && rapid.IntRange(0, 3).Draw(g.t, "sevenBit") != 0
 		v.SetString(g.str("str", ascii))
 	case reflect.Ptr:
 		v.Set(reflect.New(t.Elem()))
